@@ -56,6 +56,6 @@ RECURSIVE SumDom(_)
 SumDom(i) == IF i = 0 THEN 0 ELSE Cardinality(DomOf(OpForms[i].dom)) + SumDom(i - 1)
 Declared == SumDom(NF)
 Post == /\ PrintT("META" \o ToJson([forms |-> OpForms, codes |-> Codes, kinds |-> [i \in 1..Len(Codes) |-> KindOf(Codes[i])],
-                                     declared |-> Declared, unbounded |-> Unbounded, distinct |-> TLCGet("stats").distinct]))
+                                     declared |-> Declared, unbounded |-> Unbounded, ix |-> IxCodes, distinct |-> TLCGet("stats").distinct]))
         /\ TLCGet("stats").distinct = Declared + NF
 =============================================================================
